@@ -170,12 +170,12 @@ Why(S, r) ==
          ELSE IF S.n >= Len(app) THEN "chunk-beyond-messages"
          ELSE
            LET m      == app[S.n + 1]
-               same   == c.has /\ c.sid = m.sid /\ m.ts >= c.ts
+               same   == c.has /\ c.sid = m.sid /\ Forward(c.ts, m.ts)   \* as RtmpChunk!Allowed (roll-over of the 31-bit timestamp)
                okf    == CASE r.fmt = 0 -> TRUE
                            [] r.fmt = 1 -> same
                            [] r.fmt = 2 -> same /\ c.len = MsgLen(m) /\ c.type = m.type
-                           [] r.fmt = 3 -> same /\ c.len = MsgLen(m) /\ c.type = m.type /\ m.ts - c.ts = c.delta
-               tsval  == IF r.fmt = 0 \/ ~c.has THEN m.ts ELSE m.ts - c.ts
+                           [] r.fmt = 3 -> same /\ c.len = MsgLen(m) /\ c.type = m.type /\ Delta31(c.ts, m.ts) = c.delta
+               tsval  == IF r.fmt = 0 \/ ~c.has THEN m.ts ELSE Delta31(c.ts, m.ts)
                isext  == IF r.fmt = 3 THEN c.ext ELSE tsval >= X24
                extval == IF r.fmt = 3 THEN c.extval ELSE tsval
            IN IF MsgLen(m) = 0 /\ r.fmt <= 1 /\ r.len # 0 THEN "empty-message-not-on-the-wire"
